@@ -130,6 +130,9 @@ class FilledGrid(grid.Grid[NumX, NumY]):
         vacancies = frozenset(
             (x + x_dim * i, y + y_dim * j)
             for i, j, (x, y) in product(range(x_times), range(y_times), self.vacancies)
+            # a vacancy outside the grid denotes no site; tiling it would
+            # vacate a site of the neighbouring copy
+            if 0 <= x < x_dim and 0 <= y < y_dim
         )
         return FilledGrid.vacate(new_parent, vacancies)
 
